@@ -481,6 +481,10 @@ namespace
                     long double scale = std::fabs(znew) + std::fabs(static_cast<long double>(ze[i]));
                     long double cond = 1.0L;
                     bool defined = true;
+                    // interval form for exponents below one next to a zero drop (unbounded derivative there): the term is monotone in
+                    // the drop, so with the drop known up to the rounding u the residual lies between the residuals at drop -/+ u
+                    long double res_lo = res, res_hi = res;
+                    bool near_zero_drop = false, finite_terms = true;
                     for (std::size_t k = 0; k < S.rec_count[i]; ++k)
                     {
                         std::size_t r = S.r(i, k);
@@ -507,9 +511,18 @@ namespace
                             term = F * powl(drop / L, static_cast<long double>(n_exp));
                         }
                         if (!std::isfinite(static_cast<double>(term)))
+                        {
                             defined = false;
+                            finite_terms = false;
+                        }
                         res += term;
                         scale += std::fabs(term);
+                        if (n_exp < 1.0)
+                        {
+                            const long double u = rtol, nn = static_cast<long double>(n_exp);
+                            res_lo += F * powl(std::max(0.0L, drop - u) / L, nn);
+                            res_hi += F * powl((drop + u) / L, nn);
+                        }
                         // sensitivity of the term to the rounding u of the stored elevations: sup of
                         // d/d(drop) [F (drop/L)^n] over [drop - u, drop + u]
                         {
@@ -520,7 +533,10 @@ namespace
                             else if (drop > 2 * u)
                                 cond += nn * F / powl(L, nn) * powl(drop - u, nn - 1.0L);
                             else
+                            {
                                 defined = false;  // unbounded sensitivity next to zero drop
+                                near_zero_drop = true;
+                            }
                         }
                     }
                     if (defined)
@@ -533,6 +549,19 @@ namespace
                         {
                             R.violation("C13", "residual_exceeds_tolerance/n_" + nclass,
                                         witness("node " + std::to_string(i) + " residual " + jnum(static_cast<double>(res)) + " allowed " + jnum(static_cast<double>(allowed)) + " (tolerance " + jnum(tol) + ")"));
+                            c13_fail = true;
+                        }
+                    }
+                    else if (near_zero_drop && finite_terms && n_exp < 1.0)
+                    {
+                        const long double slack = 1e-9L * scale + 4.0L * rtol + static_cast<long double>(tol);
+                        ++checked13;
+                        R.count("c13.nodes_checked_in_interval_form");
+                        if (res_lo > slack || res_hi < -slack)
+                        {
+                            R.violation("C13", "residual_exceeds_tolerance/n_" + nclass + "_at_zero_drop",
+                                        witness("node " + std::to_string(i) + " was not reported as limited, its new elevation lies on its receiver's, and the residual is in ["
+                                                + jnum(static_cast<double>(res_lo)) + ", " + jnum(static_cast<double>(res_hi)) + "] whatever the rounding of the drop (slack " + jnum(static_cast<double>(slack)) + ")"));
                             c13_fail = true;
                         }
                     }
@@ -973,6 +1002,28 @@ namespace
                     }
                 }
                 R.count("c14.linearity_checks");
+            }
+            if (ok && rng.chance(0.2))
+            {
+                // the array a step returns is itself a field on the grid: handing that very array (not a copy) to the next step of the
+                // same eroder must give what a second eroder gives for a copy of it
+                const auto& first = er->erode(zin, dt);
+                xt::xarray<double> copy_of_first = first;
+                std::unique_ptr<adi_t> er5;
+                if (kscalar)
+                    er5 = std::make_unique<adi_t>(*grid, ks);
+                else
+                    er5 = std::make_unique<adi_t>(*grid, karr(kv));
+                std::vector<double> want_alias = flat_vec(er5->erode(copy_of_first, dt));
+                const auto& again = er->erode(first, dt);
+                for (std::size_t i = 0; i < n; ++i)
+                    if (bits(again.flat(i)) != bits(want_alias[i]))
+                    {
+                        R.violation("C14", "result_array_as_next_input", witness("erode(erode(z)) with the returned array handed straight back differs at node " + std::to_string(i) + " from a second eroder given a copy: "
+                                                                                 + jnum(again.flat(i)) + " vs " + jnum(want_alias[i])));
+                        break;
+                    }
+                R.count("c14.result_array_reused_as_input");
             }
             bool nt = false;
             for (std::size_t i = 0; i < n; ++i)
